@@ -2,9 +2,10 @@ package props
 
 import (
 	"bytes"
-	"fmt"
 	"io"
+	"reflect"
 	"sort"
+	stdstrconv "strconv"
 
 	"github.com/tdewolff/parse/v2"
 	"github.com/tdewolff/parse/v2/buffer"
@@ -56,49 +57,99 @@ var corpus = [][]string{
 	0: { // css
 		"a{color:red;margin:0 auto}", "@media screen and (min-width:100px){.x>y~z{top:-1.5e3px}}", "/* c */ @import url(\"x.css\"); b{}", ".a:not(.b)::before{content:\"\\201C\";background:url( x.png )}",
 		"@font-face{font-family:x;src:url(a)}", "color:#fff;width:calc(1px + 2%)", "a{b:c!important;--v:{x}}", "@charset \"utf-8\";<!-- x --> u+0-7F", "x{y:1e}", "@supports (display:grid) and (not (display:inline-grid)){a{b:c}}",
+		"a{\n  color : RED ;\n  background: URL(data:image/png;base64,AAAA) no-repeat\n}\n\n.b { margin:-0.5em 1E3px +.5% }", "h1,h2>h3+h4{font:12px/1.5 \"Helvetica Neue\",sans-serif}", "@keyframes k{from{left:0}50.5%{left:1px}to{left:2px}}",
+		".é\\26 x{content:'\\'';width:1e+2px;u:U+26??}", "@page :first{margin:1in}@namespace svg url(http://www.w3.org/2000/svg);", "a[href^='http'],b[c|=d i]{e:f}", "@media(max-width:10px){@media print{a{b:c}}}", "div{grid-template-areas:\"a b\"\n\"c d\";}", "a{b:c;;d:e}}f{g:h", "x{color:rgb(1 2 3 / 50%);w:min(1px,2em)}",
 	},
 	1: { // html
 		"<!doctype html><html><body class=a id='b'>text &amp; more<br/></body></html>", "<script>var a = '</scr' + 'ipt>';</script><style>a{}</style>", "<a href=\"x\" {{ if .X }}disabled{{ end }}>{{ .Y }}</a>",
 		"<!-- c --><p>par<![CDATA[x]]><svg><path d=\"M0 0\"/></svg>", "<input value=<%= x %> checked><?php echo 1 ?>", "<textarea>x</textarea><title>a</title><plaintext>zzz", "<div\ta\n=\n'1' b=2/>", "</ x><a b='c\x00d'>",
+		"<html>\n <head>\n  <TITLE>T &lt; t</TITLE>\n  <SCRIPT type=\"text/javascript\">\n   if (a</b/) x()\n  </SCRIPT>\n </head>\n <body>\n  line\n </body>\n</html>\n", "<style>a>b{c:d}</style><STYLE media=x></StYlE>", "<math><mi>x</mi></math><svg><title>t</title><script>s</script></svg>",
+		"<p>é ü 漢字 <b>bold</b>\n<i>it</i></p>", "<a {{ .Attr }} b=\"{{ .V }}\" c='<% d %>'><?= e ?></a>", "<iframe srcdoc=\"<p>x</p>\"></iframe><noscript><img></noscript>", "<textarea>\n</textarea>\n<pre>\n x</pre>", "<!DOCTYPE html PUBLIC \"-//W3C//DTD\"><?xml v?><![if IE]>", "<a/b=c/><d e=f/g>", "<script><!--\nx</script>\n--></script>",
 	},
 	2: { // xml
 		"<?xml version=\"1.0\"?><a b=\"c\"><d/>text</a>", "<!DOCTYPE x [<!ENTITY y \"z\">]><x>&y;</x>", "<a><![CDATA[ x ]]><!-- c --></a>", "<a:b xmlns:a='u' c = \"d\" ></a:b>", "<a b='c' d=\"e\"/><?pi x?>",
+		"<?xml version='1.0' encoding='UTF-8'?>\n<root>\n  <item id=\"1\">é &amp; ü</item>\n  <item id='2'/>\n</root>\n", "<!DOCTYPE a SYSTEM \"a.dtd\" [ <!ELEMENT a (b)> ]><a><b/></a>", "<a><!-- -- --><![CDATA[]]]]><![CDATA[>]]></a>", "<a b=\"<\" c='>'>text</a  >", "<x>\n\tline2\n\tline3 <y z=\"1\n2\"/>\n</x>",
 	},
 	3: { // json
 		"{\"a\":[1,2.5e3,true,null,{\"b\":\"c\\n\"}]}", "[ ]", "{\"x\": {\"y\": [[], {}]}, \"z\": -0.1}", "\"str\"", "[1,,2]", "{\"a\":1,}", "{\"k\":\"\\u00e9\",\"l\":[false]}",
+		"{\n  \"name\": \"é\",\n  \"list\": [\n    1e-7,\n    -0,\n    \"\\\"q\\\"\"\n  ]\n}\n", "[[[[[[1]]]]]]", "{\"a\":{\"b\":{\"c\":{}}}} x", "[\"\\ud83d\\ude00\", \"tab\\t\"]", "tru", "{\"a\" 1}", "123.5E+10",
 	},
 	4: { // js
 		"var a = 1, b = /re/g.test(x) ? a/2 : `t${a}l`;", "function f(a,b=1,...c){ if(a) return b; else for(let i of c) yield i }", "class A extends B { #p = 1; static m(){ super.m() } get x(){return this.#p} }",
 		"async () => { await x; label: while(1){ break label } }", "a = b\n++c; x = {y, [z]: 1, ...w}; try{}catch{}finally{}", "import a, {b as c} from 'm'; export default function(){}", "if (a) b; else c\nswitch(x){case 1: default:}", "x = a ?? b?.c?.[d]; 0x1F + 1_000n - .5e-3", "{\"a\":1}", "[1,\"x\",{\"y\":null}]",
 		"while(a){b}", "do x; while(y)", "for(var i=0;i<1;i++){}", "a=>{ let x = function*(){}; new.target }",
+		"/*! license */\n/*! second */\nvar été = 1; /*! third */\nété++", "/*! bang */ x = 1\n/*! bang2 */ y = 2", "var ǩ = \"é\", 変数 = ǩ + 'ü'; /é+/gimsuy.test(変数)", "x = /[/]\\//u; y = a /é/ g; z = `a${`b${c}`}`", "// line\n/* block\n more */\nlet π = 3.14, \\u0061b = 2\nconsole.log(π)",
+		"label: for (const [k, v] of Object.entries(o)) { if (!v) continue label; else break }", "x = async function* () { for await (const y of z) yield* y }", "a ||= b; c &&= d; e ??= f; g **= 2; h >>>= 1", "if (a) function f(){}; var let = 1; yield = 2", "({a, b: [c, d = 1], ...e} = f); [g, , h] = i", "new A; new A.b(c); new new D()(); a?.(b)", "export {a as b, c}; export * from 'm'; import * as n from \"n\"", "class C { static #x; static { this.#x = 1 } ['m']() {} async *g() {} }", "a\n/b/g", "return 1", "x = {get a(){return 1}, set a(v){}, async b(){}, *c(){}}", "<!-- html comment\nx-->y", "1..toString(); 08.5; 0b101; 0o17; 1e+400",
 	},
 	5: { // numbers
 		"0", "-1", "12345678901234567890", "1.5e10", "-0.000001", "1e-400", "9223372036854775807", ".5", "1,234.56", "+7", "1e", "abc", "0.1e+2x",
+		"2.5e45", "1.5e-30", "0.00000000000000000000003", "123456789012345678901234567890123456789012.5", "1e23", "8.5e-23", "4.9e-324", "1.7976931348623157e308", "1e309", "-9223372036854775808", "18446744073709551615", "0.30000000000000004", "5e-324x", "00012.500", "1_000", "3.", "٣", "1e22", "1e-22", "0.000000000000000000000123456", "99999999999999999999.99999", "12,345,678", "1.234.567,89",
 	},
 	6: { // free text
 		"  hello \t\n world  ", "a &amp; b &#39;c&#x27; &quot;d&quot; &unknown; &lt", "text/html; charset=UTF-8; q=0.9", "data:text/plain;base64,aGVsbG8=", "data:,a%20b", "http://x/y z?q=ä&r=1", "12.5px", "1e3em", "ÀÉÎ mixed Case", "line1\nline2\r\nline3\tcol",
+		"first line\nsecond line é\nthird line 漢字 here\n\nfifth", "a\rb\r\nc\n\rd\u2028e\u2029f", "data:image/svg+xml;charset=utf-8,%3Csvg%3E", "DATA:;BASE64,QQ==", "application/json;charset=\"utf-8\" ; boundary=x", "&varphi;&#931;&#x3A3;&AMP&amp;amp;", "url(%E2%82%AC)?a=b&c=d#frag", "-1.5e-3% +.5E2px 100", "\t\t  \n\n x \x0c y  ", "ＡＢＣ abc ÄÖÜ äöü ß ǅ", "x\x00y\x00", "0123456789abcdefghijklmnopqrstuvwxyz0123456789ABCDEFGHIJKLMNOPQRSTUVWXYZ-_.~",
 	},
 }
 
-type tr struct{ bytes.Buffer }
+// tr is a task-private transcript. It must not synchronise with other tasks in any way the
+// race detector can see: fmt (whose printer cache is a sync.Pool, i.e. a release/acquire pair
+// between whichever goroutines use it) is therefore banned on the task path - with it, about
+// 3 of 4 conflicting access pairs became "ordered" and the detector went blind (found with
+// seeded change c20a-2, see DESIGN.md 10.2). Only strconv and append are used.
+type tr struct{ b []byte }
+
+func (t *tr) Bytes() []byte { return t.b }
 
 func (t *tr) add(tag string, a ...interface{}) {
-	t.WriteString(tag)
+	t.b = append(t.b, tag...)
 	for _, x := range a {
+		t.b = append(t.b, ' ')
 		switch v := x.(type) {
 		case []byte:
-			fmt.Fprintf(&t.Buffer, " %q", v)
+			t.b = stdstrconv.AppendQuote(t.b, string(v))
+		case string:
+			t.b = append(t.b, v...)
 		case error:
 			if v == nil {
-				t.WriteString(" <nil>")
+				t.b = append(t.b, "<nil>"...)
 			} else {
-				fmt.Fprintf(&t.Buffer, " err(%s)", v.Error())
+				t.b = append(append(append(t.b, "err("...), v.Error()...), ')')
 			}
+		case nil:
+			t.b = append(t.b, "<nil>"...)
+		case int:
+			t.b = stdstrconv.AppendInt(t.b, int64(v), 10)
+		case int32:
+			t.b = stdstrconv.AppendInt(t.b, int64(v), 10)
+		case int64:
+			t.b = stdstrconv.AppendInt(t.b, v, 10)
+		case uint8:
+			t.b = stdstrconv.AppendUint(t.b, uint64(v), 10)
+		case uint16:
+			t.b = stdstrconv.AppendUint(t.b, uint64(v), 10)
+		case uint32:
+			t.b = stdstrconv.AppendUint(t.b, uint64(v), 10)
+		case uint64:
+			t.b = stdstrconv.AppendUint(t.b, v, 10)
+		case float64:
+			t.b = stdstrconv.AppendFloat(t.b, v, 'g', -1, 64)
+		case bool:
+			t.b = stdstrconv.AppendBool(t.b, v)
 		default:
-			fmt.Fprintf(&t.Buffer, " %v", v)
+			panic("harness: transcript value of unsupported type " + reflect.TypeOf(x).String())
 		}
 	}
-	t.WriteByte('\n')
+	t.b = append(t.b, '\n')
+}
+
+func panicText(r interface{}) string {
+	switch v := r.(type) {
+	case error:
+		return v.Error()
+	case string:
+		return v
+	}
+	return "panic of type " + reflect.TypeOf(r).String()
 }
 
 // yieldReader is a private chunking reader with a yield point per Read.
@@ -143,7 +194,7 @@ type recVisitor struct {
 func (v *recVisitor) Enter(n js.INode) js.IVisitor {
 	sched.Yield(sched.SiteVisit)
 	v.n++
-	v.t.add("enter", v.depth, fmt.Sprintf("%T", n))
+	v.t.add("enter", v.depth, reflect.TypeOf(n).String())
 	if v.skip > 0 && v.n%v.skip == 0 {
 		return nil
 	}
@@ -154,22 +205,46 @@ func (v *recVisitor) Enter(n js.INode) js.IVisitor {
 func (v *recVisitor) Exit(n js.INode) {
 	sched.Yield(sched.SiteVisit)
 	v.depth--
-	v.t.add("exit", v.depth, fmt.Sprintf("%T", n))
+	v.t.add("exit", v.depth, reflect.TypeOf(n).String())
 }
 
 func call() { sched.Yield(sched.SiteCall) }
 
 // runWorkload executes one workload and returns its transcript. A panic of
 // the library is an outcome to compare, not a failure of the check.
-func runWorkload(in wlInput) (out []byte) {
+func runWorkload(in wlInput) []byte { return runWorkloadIn(in, nil) }
+
+// runWorkloadAfter runs a decoy workload of the same kind on another input and then the real
+// one in the SAME caller-owned backing array (the caller is done with the first instance):
+// a result that depends on what was parsed before - e.g. through a memo keyed by buffer
+// address - shows as a transcript difference against the fresh-buffer execution.
+func runWorkloadAfter(in wlInput, decoy *wlInput) []byte {
+	if decoy == nil {
+		return runWorkloadIn(in, nil)
+	}
+	n := len(in.data)
+	if len(decoy.data) > n {
+		n = len(decoy.data)
+	}
+	scratch := make([]byte, 0, n+4)
+	runWorkloadIn(*decoy, scratch)
+	return runWorkloadIn(in, scratch)
+}
+
+func runWorkloadIn(in wlInput, scratch []byte) (out []byte) {
 	t := &tr{}
 	defer func() {
 		if r := recover(); r != nil {
-			t.add("PANIC", fmt.Sprint(r))
+			t.add("PANIC", panicText(r))
 			out = append([]byte(nil), t.Bytes()...)
 		}
 	}()
-	d := append(make([]byte, 0, len(in.data)+in.opt%3), in.data...) // private copy with private spare capacity
+	var d []byte
+	if scratch != nil {
+		d = append(scratch[:0], in.data...) // the caller's reused array
+	} else {
+		d = append(make([]byte, 0, len(in.data)+in.opt%3), in.data...) // private copy with private spare capacity
+	}
 	switch in.kind {
 	case wlCSSLex:
 		l := css.NewLexer(parse.NewInputBytes(d))
@@ -353,7 +428,11 @@ func runWorkload(in wlInput) (out []byte) {
 	case wlPosition:
 		for _, off := range []int{0, len(d) / 2, len(d), in.opt % (len(d) + 1)} {
 			call()
-			line, col, ctx := parse.Position(&yieldReader{data: d, chunk: 1 + in.opt%5}, off)
+			var rd io.Reader = &yieldReader{data: d, chunk: 1 + in.opt%5}
+			if in.opt&8 != 0 {
+				rd = buffer.NewReader(d) // Bytes() shortcut: the library works on the caller's array
+			}
+			line, col, ctx := parse.Position(rd, off)
 			t.add("pos", off, line, col, ctx)
 		}
 		call()
